@@ -409,6 +409,8 @@ def match_finding(findings, prop, failure):
             continue
         if f.get("clause") and f["clause"] != failure.get("clause"):
             continue
+        if f.get("clause_regex") and not re.search(f["clause_regex"], failure.get("clause", "")):
+            continue
         pat = f.get("signature_regex")
         if pat and not re.search(pat, failure.get("signature", "")):
             continue
